@@ -363,6 +363,7 @@ def elabMember (Γ : Env) (name : String) (e : IExpr) (τ : ETy) : Res :=
       | some (idx, t) => .ok (.member e id idx, ⟨t, τ.vt⟩)
       | none => .error (.reject "StructMemberDoesNotExist")
     | some .object => .error (.unsupported "object member")
+    | some (.resource _ _) => .error (.unsupported "object member")
     | some _ => .error (.reject "TypeDoesNotHaveMembers")
     | none => .error (.unsupported "undeclared type")
   | .scalar s =>
@@ -381,26 +382,31 @@ def elabMember (Γ : Env) (name : String) (e : IExpr) (τ : ETy) : Res :=
 
 /-! ## subscripts -/
 
-/-- `matches!(tyl_nomod, Array | Vector | Matrix)` (the buffer / texture objects are outside the model) -/
-def indexable (Γ : Env) (l : Layer) : Except Err Unit :=
+/-- the `index_type` of the `ArraySubscript` arm: `uint` for arrays, vectors, matrices and buffers, `uint2` / `uint3` for
+    textures (widths from `Gen.ElabTables.subscriptIndexWidth`); anything else is `ArrayIndexingNonArrayType` -/
+def indexTy (Γ : Env) (l : Layer) : Except Err ETy :=
   match l with
-  | .vector _ _ => .ok ()
-  | .matrix _ _ _ => .ok ()
+  | .vector _ _ => .ok uintR
+  | .matrix _ _ _ => .ok uintR
   | .other id =>
     match Γ.others[id]? with
-    | some (.array _ _) => .ok ()
+    | some (.array _ _) => .ok uintR
+    | some (.resource kind _) =>
+      match subscriptIndexWidth.lookup kind with
+      | some w => .ok (if w = 1 then uintR else Ty.r ⟨{}, .vector .uInt32 w⟩)
+      | none => .error (.reject "ArrayIndexingNonArrayType")
     | some .object => .error (.unsupported "object subscript")
     | some _ => .error (.reject "ArrayIndexingNonArrayType")
     | none => .error (.unsupported "undeclared type")
   | _ => .error (.reject "ArrayIndexingNonArrayType")
 
 /-- the `ArraySubscript` arm of `parse_expr_unchecked` after both operands have been elaborated: the index is converted
-    to `uint`, the type of the node is whatever `Expression::get_type` says (`get_expression_type`) -/
+    to the index type, the type of the node is whatever `Expression::get_type` says (`get_expression_type`) -/
 def elabIndex (Γ : Env) (a : IExpr) (τa : ETy) (i : IExpr) (τi : ETy) : Res :=
-  match indexable Γ τa.ty.layer with
+  match indexTy Γ τa.ty.layer with
   | .error m => .error m
-  | .ok _ =>
-    match find τi uintR with
+  | .ok it =>
+    match find τi it with
     | .error m => .error (.panic m)
     | .ok none => .error (.reject "ArraySubscriptIndexNotInteger")
     | .ok (some c) =>
